@@ -59,6 +59,9 @@ def gen(rng: Any, prop: str, tier: str) -> dict[str, Any]:
             g.connect(sid, "DB1", None)
         else:
             g.connect(sid, None, None)
+    if rng.random() < 0.6:
+        g.exec(sids[0], {"t": "create_db", "name": "DB2"})
+        g.exec(sids[0], {"t": "create_schema", "db": "DB2", "name": "S1"})
     closed: set[str] = set()
     txn_owner: list[str | None] = [None]
     p_fail = rng.choice([0.15, 0.3, 0.5])
@@ -214,13 +217,13 @@ def _failing(g: Gen, rng: Any, sid: str, hz: dict[str, bool], txn_owner: list[st
     elif kind == "unknown_schema":
         r = rng.random()
         if r < 0.4:
-            g.exec(sid, {"t": "select", "ref": [rng.choice([None, "DB1"]), "S9", "T1"]}, cur=cur)
+            g.exec(sid, {"t": "select", "ref": [rng.choice([None] + sorted(m.dbs)), "S9", "T1"]}, cur=cur)
         elif r < 0.6:
             g.exec(sid, {"t": "create_table", "ref": [rng.choice([None, "DB1"]), "S9", "T1"], "cols": [["A", "INT"]]}, cur=cur)
         elif r < 0.8:
             g.exec(sid, {"t": "drop_schema", "db": rng.choice([None, "DB1"]), "name": "S9"}, cur=cur)
         else:
-            g.exec(sid, {"t": "use_schema", "db": "DB1", "name": "S9"}, cur=cur)
+            g.exec(sid, {"t": "use_schema", "db": rng.choice(sorted(m.dbs)), "name": "S9"}, cur=cur)
     elif kind == "unknown_db":
         r = rng.random()
         if r < 0.4:
@@ -287,5 +290,7 @@ def _focus(op: dict[str, Any], pred: dict[str, Any]) -> bool:
 
 
 def run(case: dict[str, Any]) -> dict[str, Any]:
-    res = run_serial_case(case, Oracle("C07", CLAUSE_PROPS), focus=_focus, fail_profile=True)
+    oracle = Oracle("C07", CLAUSE_PROPS)
+    oracle.fail_prop = "C07"
+    res = run_serial_case(case, oracle, focus=_focus, fail_profile=True)
     return res
